@@ -189,7 +189,7 @@ func c06FamNull(r *Run, full bool) []c06m {
 		}
 		for _, s := range al {
 			for _, t := range al {
-				if full && r.Rng.Intn(4) == 0 || !full && r.Rng.Intn(40) == 0 {
+				if full && r.Rng.Intn(4) == 0 || !full && r.Rng.Intn(90) == 0 {
 					out = append(out, c06Query(c06m{"v": c06a{}}, n, s, t))
 					r.Count("fam:null.step.step")
 				}
@@ -420,7 +420,7 @@ func c06FamEdit(r *Run, full bool) []c06m {
 	// all pairs: the stream switching has a two-element memory
 	for _, a := range els {
 		for _, b := range els {
-			if full || r.Rng.Intn(8) == 0 {
+			if full || r.Rng.Intn(16) == 0 {
 				out = append(out, c06m{"op": "bulk", "els": c06a{a, b}})
 				r.Count("fam:edit.bulk.pair")
 			}
@@ -477,11 +477,14 @@ func c06Gen(r *Run) {
 			}
 			fams = append(fams, c06FamRandom(r, nr))
 		} else {
-			nr := 200
+			nr := 120
 			if full {
 				nr = 1200
 			}
-			fams = [][]c06m{c06FamRandom(r, nr), c06FamNull(r, false)}
+			fams = [][]c06m{c06FamRandom(r, nr)}
+			if full {
+				fams = append(fams, c06FamNull(r, false))
+			}
 		}
 		for _, f := range fams {
 			// one case per ~250 ops so that workers run in parallel
